@@ -24,7 +24,14 @@ condition of the stated outcome that nothing else covers:
               capacity constraint uses the capacity left by what is hosted;
 * R-PROTO     message chain agent_removed -> setup_repair -> repair_ready ->
               repair_run -> repair_done: types, handlers, fields at both ends;
-* R-STATES    agent-state literals written are compared somewhere and vice versa.
+* R-STATES    agent-state literals written are compared somewhere and vice versa;
+* R-REREPLICATE k-resilience is restored after each event (needed for the next one):
+              the replication computation listens to all agent events; on a
+              removal that changes its neighbour cache it records the agent,
+              answers the requests pending on it and re-launches replication of
+              the replicas it held, all for the departed agent; containers of
+              (agent, cost) pairs / keyed by (agent, computation) are never
+              probed with a bare agent name.
 """
 import ast
 
@@ -33,12 +40,66 @@ from ..facts import FuncFacts, facts_at, stmt_paths
 from ..report import Ctx, AnalysisError
 from ..effects import field_writes, fact_set, stmt_has_self_call
 from ..flow import bound_arg, resolve_local, local_defs
+from .. import shaperules
 
 ORC = "pydcop.infrastructure.orchestrator"
 AG = "pydcop.infrastructure.agents"
 OA = "pydcop.infrastructure.orchestratedagents"
 RM = "pydcop.reparation.removal"
 STATES = ("replicating", "ready", "running", "repair_setup", "repair_ready", "repair_run", "repair_done")
+
+
+UCS = "pydcop.replication.dist_ucs_hostingcosts"
+
+
+def _rereplicate(ctx, repo):
+    cls = repo.cls(UCS, "UCSReplication")
+    shaperules.check_shapes(ctx, "R-REREPLICATE", cls, min_fields=2)
+    ev = cls.methods["_on_agent_event"]
+    ctx.touch(ev)
+    subs = [c for f in cls.methods.values() for c in walk_no_nested(f.node) if isinstance(c, ast.Call) and norm(c.func) == "self.discovery.subscribe_all_agents"
+            and c.args and norm(c.args[0]) == "self._on_agent_event"]
+    ctx.check(len(subs) >= 1, "R-REREPLICATE", "UCSReplication subscribes _on_agent_event to all agent events", ev, subs[0] if subs else ev.node, "without the subscription a departure is never seen")
+    ep, ap = ev.params[1], ev.params[2]
+    ff = FuncFacts(ev.node)
+    rebinding = [a for a in walk_no_nested(ev.node) if isinstance(a, ast.Assign) and norm(a.targets[0]) == "self._replication_computations_cache"]
+    ok = len(rebinding) == 1
+    fs0 = fact_set(ff, rebinding[0]) if ok else set()
+    ok = ok and (f"{ep} == 'agent_removed'", True) in fs0
+    if ok:
+        v = resolve_local(ev, rebinding[0].value)
+        v = v if isinstance(v, ast.SetComp) else next((a.value for a in walk_no_nested(ev.node) if isinstance(a, ast.Assign) and norm(a.targets[0]) == norm(rebinding[0].value)), None)
+        ok = isinstance(v, ast.SetComp) and norm(v.generators[0].iter) == "self._replication_computations_cache" and isinstance(v.generators[0].target, ast.Tuple) and \
+            len(v.generators[0].ifs) == 1 and norm(v.generators[0].ifs[0]) in (f"{norm(v.generators[0].target.elts[0])} != {ap}", f"{ap} != {norm(v.generators[0].target.elts[0])}") and \
+            norm(v.elt) == norm(v.generators[0].target)
+    ctx.check(ok, "R-REREPLICATE", "on agent_removed the neighbour cache loses exactly the pairs of the departed agent", ev, rebinding[0] if rebinding else ev.node,
+              "the cache of (agent, route cost) pairs must be rebuilt without the departed agent")
+    for want in ("self._removed_agents.add", "self._answer_lost_requests", "self._replicate_on_agent_lost"):
+        cs = [c for c in walk_no_nested(ev.node) if isinstance(c, ast.Call) and norm(c.func) == want]
+        okc = len(cs) == 1 and [norm(a) for a in cs[0].args] == [ap] and rebinding and fact_set(ff, cs[0]) == fs0
+        ctx.check(okc, "R-REREPLICATE", f"on a removal that changed the cache: {want}({ap})", ev, cs[0] if cs else ev.node,
+                  "whenever the departed agent was a replication neighbour, it is recorded, its pending requests are answered and the replicas it held are re-created; "
+                  "otherwise the next departure finds fewer than k replicas")
+    lost = cls.methods["_replicate_on_agent_lost"]
+    ctx.touch(lost)
+    lp = lost.params[1]
+    loops = [l for l in lost.node.body if isinstance(l, ast.For) and norm(l.iter) == "self._replica_hosts.items()"]
+    ok = len(loops) == 1
+    if ok:
+        rn, an = [norm(e) for e in loops[0].target.elts]
+        t = norm(loops[0])
+        ok = f"if {lp} in {an}:" in t and f"{an}.remove({lp})" in t and f".append({rn})" in t
+    ctx.check(ok, "R-REREPLICATE", "every computation that had a replica on the departed agent is collected and the agent removed from its hosts", lost, loops[0] if loops else lost.node, "")
+    rep = [c for c in ast.walk(lost.node) if isinstance(c, ast.Call) and is_self_call(c, "replicate")]
+    ctx.check(len(rep) >= 1, "R-REREPLICATE", "lost replicas are re-created through replicate()", lost, rep[0] if rep else lost.node, "")
+    alr = cls.methods["_answer_lost_requests"]
+    ctx.touch(alr)
+    comp = [x for x in ast.walk(alr.node) if isinstance(x, ast.ListComp) and norm(x.generators[0].iter) == "self._pending_requests"]
+    ok = len(comp) == 1 and isinstance(comp[0].generators[0].target, ast.Tuple) and [norm(i) for i in comp[0].generators[0].ifs] in (
+        [f"{norm(comp[0].generators[0].target.elts[0])} == {alr.params[1]}"], [f"{alr.params[1]} == {norm(comp[0].generators[0].target.elts[0])}"])
+    ans = [c for c in ast.walk(alr.node) if isinstance(c, ast.Call) and is_self_call(c, "on_replicate_answer")]
+    ctx.check(ok and len(ans) == 1, "R-REREPLICATE", "requests pending on the departed agent (first key component) get a local answer", alr, comp[0] if comp else alr.node,
+              "a request sent to an agent that left is never answered: the search for a host would wait for ever")
 
 
 def check(ctx: Ctx):
@@ -55,7 +116,9 @@ def check(ctx: Ctx):
     ctx.rule("R-ACTIVATE", "deploy iff repair variable == 1, from the held replica, published; replica dropped on all paths; report = selected candidates")
     ctx.rule("R-REPAIRDCOP", "repair DCOP: minimisation; hosted/capacity/hosting/communication constraints; own variable; candidate agents from slot 0")
     ctx.rule("R-PROTO", "repair message chain: types, handlers, fields")
+    ctx.rule("R-REREPLICATE", "after a removal the owner drops the departed agent from its replication neighbours, answers its pending requests and re-creates the lost replicas")
     ctx.rule("R-STATES", "agent-state literals: every written literal is compared or terminal, every compared literal is written")
+    _rereplicate(ctx, repo)
     _orphans(ctx, repo)
     _status(ctx, repo)
     _barrier(ctx, repo)
@@ -527,7 +590,11 @@ _O = "pydcop/infrastructure/orchestrator.py"
 _A = "pydcop/infrastructure/agents.py"
 _OA = "pydcop/infrastructure/orchestratedagents.py"
 _R = "pydcop/reparation/removal.py"
+_U = "pydcop/replication/dist_ucs_hostingcosts.py"
 VARIANTS = [
+    ("removed_agent_probed_by_name", _U, "            if len(without) != len(self._replication_computations_cache):\n", "            if agent in self._replication_computations_cache:\n", "break", "R-REREPLICATE"),
+    ("lost_replicas_not_recreated", _U, "                self._answer_lost_requests(agent)\n\n                # Re-launch replication for the computation(s) that have lost a\n                # replica.\n                self._replicate_on_agent_lost(agent)\n", "                self._answer_lost_requests(agent)\n", "break", "R-REREPLICATE"),
+    ("lost_requests_keyed_by_computation", _U, "            for rq_agt, rq_comp in self._pending_requests\n            if rq_agt == agent\n", "            for rq_agt, rq_comp in self._pending_requests\n            if rq_comp == agent\n", "break", "R-REREPLICATE"),
     ("orphans_one_per_agent", _R, "    orphaned = []\n    for agt in departed:\n        orphaned += discovery.agent_computations(agt)\n    return orphaned",
      "    hosted = {discovery.computation_agent(c): c\n              for c in discovery.computations()}\n    return [hosted[agt] for agt in departed if agt in hosted]", "break", "R-ORPHANS"),
     ("repair_mode_inherited", _A, "            {'stop_cycle': 20, 'threshold': 0.2},\n            mode='min',", "            {'stop_cycle': 20, 'threshold': 0.2},\n            mode=self.replication_comp.replicas[candidate_comp].algo.mode,", "break", "R-REPAIRDCOP"),
